@@ -113,6 +113,21 @@ def collect(h):
     body = h.func_body(rel, r"^func parseImpl\(", "parseImpl")
     h.find(rel, r"parser\.ParseString\(fileName, content\)", "parseImpl: ParseString")
     items.append(("parser_nesting_depth_bounded", "bool", "true" if re.search(r"checkNesting\(basicLexer, fileName, content\)", body) else "false", rel + " parseImpl (C16-F17)"))
+    # anchors of the repairs proposed for C16-F20..F24 (false until committed; lemmas then)
+    rel = "pkg/parser/impl_analyse.go"
+    body = h.func_body(rel, r"^func analyseGrantOrRevoke\(", "analyseGrantOrRevoke")
+    items.append(("parser_grant_column_lookup_visits_once", "bool", "true" if re.search(r"searched\[f\.FieldSet\.typ\]\s*=\s*true", body) else "false", rel + " analyseGrantOrRevoke checkColumn (C16-F20)"))
+    body = h.func_body(rel, r"^func lookupFieldIn\(", "lookupFieldIn")
+    rel2 = "pkg/parser/impl_build.go"
+    body2 = h.func_body(rel2, r"^func \(c \*buildContext\) addTableItems\(", "addTableItems")
+    items.append(("parser_field_sets_expanded_once", "bool", "true" if ("searched[t]" in body and "emptyFieldSets[item.FieldSet.typ]" in body2) else "false", rel + " lookupFieldIn; " + rel2 + " addTableItems (C16-F21)"))
+    body2 = h.func_body(rel2, r"^func \(c \*buildContext\) addNestedTableToDef\(", "addNestedTableToDef")
+    items.append(("parser_nested_table_comments_applied", "bool", "true" if re.search(r"c\.addComments\(nestedTable,", body2) else "false", rel2 + " addNestedTableToDef (C16-F22)"))
+    body2 = h.func_body(rel2, r"^func \(c \*buildContext\) addDataTypeField\(", "addDataTypeField")
+    h.find(rel2, r"AddRefField\(fieldName, field\.NotNull, QNameWDocBLOB\)", "addDataTypeField: blob field")
+    items.append(("parser_blob_table_checked", "bool", "true" if "checkReferenceToBLOB()" in body2 else "false", rel2 + " addDataTypeField (C16-F23)"))
+    body = h.func_body(rel, r"^func analyseRevoke\(", "analyseRevoke")
+    items.append(("parser_revoke_role_refused_by_analyser", "bool", "true" if "ErrRevokeRoleNotSupported" in body else "false", rel + " analyseRevoke (C16-F24)"))
     # the parser's identifier rule: a letter followed by at most 254 word characters
     rel = "pkg/parser/const.go"
     h.find(rel, r'identifierRegexp\s*=\s*`\(\[a-zA-Z\]\\w\{0,254\}\)\|\("\[a-zA-Z\]\\w\{0,254\}"\)`', "identifierRegexp")
